@@ -79,18 +79,18 @@ JobDeps(id) ==
 Ev(ev) == [ev |-> ev, exec |-> 1, stamp |-> 0, u |-> 0, idx |-> -1, k |-> 0, g |-> 2, toks |-> <<>>, out |-> "",
            kind |-> "", errs |-> <<>>, leaf |-> 0, name |-> "", same |-> FALSE, ctxok |-> TRUE, note |-> ""]
 
-\* emitter fan-out: every recording leaf gets the event (EmitterStack calls each in turn)
-RECURSIVE EmitAll(_, _, _, _, _, _)
-EmitAll(mon, l, kind, u, errs, same) ==
-  IF l > p.leaves THEN mon
-  ELSE EmitAll(MonStep(mon, [Ev("emit") EXCEPT !.leaf = l, !.kind = kind, !.u = u, !.errs = errs, !.same = same]),
-               l + 1, kind, u, errs, same)
-FlowEmit(mon, kind, errs, same) == IF p.instr THEN EmitAll(mon, 1, kind, 0, errs, same) ELSE mon
-TaskEmit(mon, t, kind, errs) == IF U(t).instr THEN EmitAll(mon, 1, kind, t, errs, FALSE) ELSE mon
+\* Every action below feeds the monitor with the sequence of events it produces (its ...Evs operator);
+\* FlowTrace.tla matches the same sequences against the events recorded from the real code.
+RECURSIVE Feed(_, _)
+Feed(mon, evs) == IF evs = <<>> THEN mon ELSE Feed(MonStep(mon, Head(evs)), Tail(evs))
 
-RECURSIVE ArgEvents(_, _)
-ArgEvents(mon, k) == IF k > p.nargsexpr THEN mon
-                     ELSE ArgEvents(MonStep(mon, [Ev("arg") EXCEPT !.k = k, !.g = 1]), k + 1)
+\* emitter fan-out: every recording leaf gets the event (EmitterStack calls each in turn)
+EmitSeq(kind, u, errs, same) ==
+  [l \in 1..p.leaves |-> [Ev("emit") EXCEPT !.leaf = l, !.kind = kind, !.u = u, !.errs = errs, !.same = same]]
+FlowEmitSeq(kind, errs, same) == IF p.instr THEN EmitSeq(kind, 0, errs, same) ELSE <<>>
+TaskEmitSeq(t, kind, errs) == IF U(t).instr THEN EmitSeq(kind, t, errs, FALSE) ELSE <<>>
+
+PrologueEvs == [k \in 1..p.nargsexpr |-> [Ev("arg") EXCEPT !.k = k, !.g = 1]]
 
 ----------------------------------------------------------------------------
 Init ==
@@ -109,7 +109,7 @@ Init ==
 \* _LINE_COL in source order, on the calling goroutine; then F:44-47 bind ctx and the Params values
 Prologue ==
   /\ cpc = "pro"
-  /\ m' = ArgEvents(m, 1)
+  /\ m' = Feed(m, PrologueEvs)
   /\ v' = [ty \in Types |-> IF ty \in RangeOf(p.params) THEN ParamTok(ty) ELSE 0]
   /\ cpc' = "enq"
   /\ UNCHANGED <<p, conc, ei, rs, js, jerr, pend, pv, ppanic, ran, ctx, stopped, serr, ret>>
@@ -156,20 +156,22 @@ WorkerCheck(id) ==
 (* Job bodies.                                                             *)
 
 ArgToks(u) == [k \in DOMAIN u.ins |-> v[u.ins[k]]]
+BeginEvs(id) == <<[Ev("ustart") EXCEPT !.u = id, !.toks = ArgToks(U(id))]>>
+EndEv(id, o) == [Ev("uend") EXCEPT !.u = id, !.out = o]
 SetOuts(u, tokOf(_)) == [ty \in Types |-> IF ty \in RangeOf(u.outs) THEN tokOf(IndexOf(u.outs, ty)) ELSE v[ty]]
 
 \* predicate job (P:11-20): the function is called with the vN of its inputs
 PredBegin(id) ==
   /\ js[id] = "chk" /\ U(id).kind = "pred"
   /\ js' = [js EXCEPT ![id] = "running"]
-  /\ m' = MonStep(m, [Ev("ustart") EXCEPT !.u = id, !.toks = ArgToks(U(id))])
+  /\ m' = Feed(m, BeginEvs(id))
   /\ UNCHANGED <<p, conc, cpc, ei, v, rs, jerr, pend, pv, ppanic, ran, ctx, stopped, serr, ret>>
 
 \* the predicate function returns true / false or panics; a panic is parked (P:12-17) and the job
 \* returns nil either way (P:19)
 PredEnd(id, o) ==
   /\ js[id] = "running" /\ U(id).kind = "pred" /\ o \in {"true", "false", "panic"}
-  /\ m' = MonStep(m, [Ev("uend") EXCEPT !.u = id, !.out = o])
+  /\ m' = Feed(m, <<EndEv(id, o)>>)
   /\ IF o = "panic" THEN ppanic' = [ppanic EXCEPT ![id] = TRUE] /\ UNCHANGED pv
                     ELSE pv' = [pv EXCEPT ![id] = o] /\ UNCHANGED ppanic
   /\ js' = [js EXCEPT ![id] = "post"] /\ pend' = [pend EXCEPT ![id] = <<"ok">>]
@@ -179,22 +181,26 @@ PredEnd(id, o) ==
 \* `if !pN { return nil }` -- before `defer ran.Store(true)` (T:85).
 \* Case 1: the predicate did not return true: no call; the deferred recover block (T:43-77) finds
 \*         the parked predicate panic, if any.
+TaskGatedEvs(id) ==
+  LET u == U(id) IN
+  IF ppanic[u.pred]
+  THEN TaskEmitSeq(id, IF u.fb THEN "TaskPanicRecovered" ELSE "TaskPanic", <<<<"P", UnitNum(u.pred, -1)>>>>)
+  ELSE <<>>
 TaskGated(id) ==
   /\ js[id] = "chk" /\ U(id).kind = "task"
   /\ U(id).pred # 0 /\ pv[U(id).pred] # "true"
+  /\ m' = Feed(m, TaskGatedEvs(id))
   /\ LET u == U(id) IN
      IF ppanic[u.pred]
      THEN IF u.fb
           THEN \* T:60-64: TaskPanicRecovered, outputs := fallback values, err := nil
-               /\ m' = TaskEmit(m, id, "TaskPanicRecovered", <<<<"P", UnitNum(u.pred, -1)>>>>)
                /\ v' = SetOuts(u, LAMBDA i : FBTok(id, i))
                /\ pend' = [pend EXCEPT ![id] = <<"ok">>]
           ELSE \* T:66-71: TaskPanic, err := PanicError{Value: parked value}
-               /\ m' = TaskEmit(m, id, "TaskPanic", <<<<"P", UnitNum(u.pred, -1)>>>>)
                /\ pend' = [pend EXCEPT ![id] = <<"fail", <<"P", UnitNum(u.pred, -1)>>>>]
                /\ UNCHANGED v
      ELSE \* predicate false: return nil, outputs stay zero, ran stays false (no TaskDone, T:37-41)
-          /\ pend' = [pend EXCEPT ![id] = <<"ok">>] /\ UNCHANGED <<m, v>>
+          /\ pend' = [pend EXCEPT ![id] = <<"ok">>] /\ UNCHANGED v
   /\ js' = [js EXCEPT ![id] = "post"]
   /\ UNCHANGED <<p, conc, cpc, ei, rs, jerr, pv, ppanic, ran, ctx, stopped, serr, ret>>
 
@@ -203,21 +209,25 @@ TaskBegin(id) ==
   /\ js[id] = "chk" /\ U(id).kind = "task"
   /\ (U(id).pred # 0 => pv[U(id).pred] = "true")
   /\ js' = [js EXCEPT ![id] = "running"]
-  /\ m' = MonStep(m, [Ev("ustart") EXCEPT !.u = id, !.toks = ArgToks(U(id))])
+  /\ m' = Feed(m, BeginEvs(id))
   /\ UNCHANGED <<p, conc, cpc, ei, v, rs, jerr, pend, pv, ppanic, ran, ctx, stopped, serr, ret>>
 
 \* the function returns (ok / err) or panics; T:89-105, then the deferred functions in reverse
 \* order of registration: ran.Store(true) (T:85), the recover block (T:43-77), TaskDone iff ran (T:37-41)
+TaskEndEvs(id, o) ==
+  LET u == U(id)
+      etok == <<IF o = "err" THEN "E" ELSE "P", UnitNum(id, -1)>>
+  IN <<EndEv(id, o)>>
+     \o (CASE o = "ok" -> TaskEmitSeq(id, "TaskSuccess", <<>>)                                        \* T:101 / T:104
+           [] o = "err" -> TaskEmitSeq(id, IF u.fb THEN "TaskErrorRecovered" ELSE "TaskError", <<etok>>)  \* T:92 / T:97
+           [] OTHER -> TaskEmitSeq(id, IF u.fb THEN "TaskPanicRecovered" ELSE "TaskPanic", <<etok>>))     \* T:61 / T:66
+     \o TaskEmitSeq(id, "TaskDone", <<>>)                                                              \* T:38-40, ran is true
 TaskEnd(id, o) ==
   /\ js[id] = "running" /\ U(id).kind = "task" /\ o \in {"ok", "err", "panic"}
   /\ (o = "err" => U(id).haserr)
   /\ LET u == U(id)
-         m1 == MonStep(m, [Ev("uend") EXCEPT !.u = id, !.out = o])
          etok == <<IF o = "err" THEN "E" ELSE "P", UnitNum(id, -1)>>
-         m2 == CASE o = "ok" -> TaskEmit(m1, id, "TaskSuccess", <<>>)                       \* T:101 / T:104
-                 [] o = "err" -> TaskEmit(m1, id, IF u.fb THEN "TaskErrorRecovered" ELSE "TaskError", <<etok>>)  \* T:92 / T:97
-                 [] o = "panic" -> TaskEmit(m1, id, IF u.fb THEN "TaskPanicRecovered" ELSE "TaskPanic", <<etok>>) \* T:61 / T:66
-     IN /\ m' = TaskEmit(m2, id, "TaskDone", <<>>)                                           \* T:38-40, ran is true
+     IN /\ m' = Feed(m, TaskEndEvs(id, o))
         /\ ran' = [ran EXCEPT ![id] = TRUE]
         /\ v' = CASE o = "ok" -> SetOuts(u, LAMBDA i : OutTok(id, i))
                   [] u.fb -> SetOuts(u, LAMBDA i : FBTok(id, i))                             \* T:62-64 / T:93-95
@@ -238,12 +248,15 @@ JobEnd(id) ==
 
 ResultToks == [k \in DOMAIN p.results |-> v[p.results[k]]]
 
+WaitNilEvs == FlowEmitSeq("FlowSuccess", <<>>, FALSE)
+WaitErrEvs == FlowEmitSeq("FlowError", <<serr>>, TRUE)
+WaitCtxEvs == FlowEmitSeq("FlowError", <<<<"CTX", 0>>>>, TRUE)
 \* sched.Wait returns nil: F:107-112
 WaitNil ==
   /\ cpc = "wait" /\ stopped /\ \A id \in UIds : js[id] = "ok"
   /\ ctx \in {"live", "cancelling"}        \* Wait re-checks ctx.Err() after finishedc
   /\ rs' = ResultToks
-  /\ m' = FlowEmit(m, "FlowSuccess", <<>>, FALSE)
+  /\ m' = Feed(m, WaitNilEvs)
   /\ ret' = <<"nil", <<>>>>
   /\ cpc' = "defer"
   /\ UNCHANGED <<p, conc, ei, v, js, jerr, pend, pv, ppanic, ran, ctx, stopped, serr>>
@@ -252,7 +265,7 @@ WaitNil ==
 WaitErr ==
   /\ cpc = "wait" /\ stopped /\ serr[1] # "nil"
   /\ LET e == serr IN
-     /\ m' = FlowEmit(m, "FlowError", <<e>>, TRUE)
+     /\ m' = Feed(m, WaitErrEvs)
      /\ ret' = IF e[1] = "CTX" THEN <<"ctx", <<>>>> ELSE <<"errs", <<e>>>>
   /\ cpc' = "defer"
   /\ UNCHANGED <<p, conc, ei, v, rs, js, jerr, pend, pv, ppanic, ran, ctx, stopped, serr>>
@@ -260,24 +273,25 @@ WaitErr ==
 \* sched.Wait returns the context's error (scheduler.go:521-522, and 529-531 after finishedc)
 WaitCtx ==
   /\ cpc = "wait" /\ CtxSeenDone
-  /\ m' = FlowEmit(m, "FlowError", <<<<"CTX", 0>>>>, TRUE)
+  /\ m' = Feed(m, WaitCtxEvs)
   /\ ret' = <<"ctx", <<>>>>
   /\ cpc' = "defer"
   /\ UNCHANGED <<p, conc, ei, v, rs, js, jerr, pend, pv, ppanic, ran, ctx, stopped, serr>>
 
 \* deferred, F:90-96: TaskSkipped for every task whose ran is false (read while tasks may still be
 \* running); then F:78: FlowDone.  The wrapper returns: the harness logs "ret".
-RECURSIVE Sweep(_, _, _)
-Sweep(mon, us, errs) ==
-  IF us = <<>> THEN mon
+RECURSIVE SweepSeq(_, _)
+SweepSeq(us, errs) ==
+  IF us = <<>> THEN <<>>
   ELSE LET u == Head(us) IN
-       Sweep(IF u.kind = "task" /\ ~ran[u.id] THEN TaskEmit(mon, u.id, "TaskSkipped", errs) ELSE mon, Tail(us), errs)
+       (IF u.kind = "task" /\ ~ran[u.id] THEN TaskEmitSeq(u.id, "TaskSkipped", errs) ELSE <<>>) \o SweepSeq(Tail(us), errs)
+DeferredEvs ==
+  LET errs == IF ret[1] = "nil" THEN <<<<"nil", 0>>>> ELSE IF ret[1] = "ctx" THEN <<<<"CTX", 0>>>> ELSE ret[2]
+  IN SweepSeq(p.units, errs) \o FlowEmitSeq("FlowDone", <<>>, FALSE)
+     \o <<[Ev("ret") EXCEPT !.kind = ret[1], !.errs = ret[2], !.toks = rs, !.g = 1]>>
 Deferred ==
   /\ cpc = "defer"
-  /\ LET errs == IF ret[1] = "nil" THEN <<<<"nil", 0>>>> ELSE IF ret[1] = "ctx" THEN <<<<"CTX", 0>>>> ELSE ret[2]
-         m1 == Sweep(m, p.units, errs)
-         m2 == FlowEmit(m1, "FlowDone", <<>>, FALSE)
-     IN m' = MonStep(m2, [Ev("ret") EXCEPT !.kind = ret[1], !.errs = ret[2], !.toks = rs, !.g = 1])
+  /\ m' = Feed(m, DeferredEvs)
   /\ cpc' = "returned"
   /\ UNCHANGED <<p, conc, ei, v, rs, js, jerr, pend, pv, ppanic, ran, ctx, stopped, serr, ret>>
 
@@ -285,19 +299,20 @@ Deferred ==
 Over ==
   /\ cpc = "returned" /\ \A id \in UIds : js[id] \notin {"running", "post"}
   /\ \A id \in UIds : js[id] \notin {"disp", "chk"}
-  /\ m' = MonStep(m, Ev("over"))
+  /\ m' = Feed(m, <<Ev("over")>>)
   /\ cpc' = "over"
   /\ UNCHANGED <<p, conc, ei, v, rs, js, jerr, pend, pv, ppanic, ran, ctx, stopped, serr, ret>>
 
 ----------------------------------------------------------------------------
 (* Cancellation by the environment (a timer, another goroutine, a task).   *)
+CancelEndEvs == IF cpc = "over" THEN <<>> ELSE <<Ev("cancel")>>
 CancelBegin == /\ CANCEL /\ ctx = "live" /\ cpc # "over" /\ ctx' = "cancelling"
-               /\ m' = MonStep(m, Ev("cancel_begin"))
+               /\ m' = Feed(m, <<Ev("cancel_begin")>>)
                /\ UNCHANGED <<p, conc, cpc, ei, v, rs, js, jerr, pend, pv, ppanic, ran, stopped, serr, ret>>
 CancelClose == /\ ctx = "cancelling" /\ ctx' = "closed"
                /\ UNCHANGED <<p, conc, cpc, ei, v, rs, js, jerr, pend, pv, ppanic, ran, stopped, serr, ret, m>>
 CancelEnd ==   /\ ctx = "closed" /\ ctx' = "done"
-               /\ m' = IF cpc = "over" THEN m ELSE MonStep(m, Ev("cancel"))
+               /\ m' = Feed(m, CancelEndEvs)
                /\ UNCHANGED <<p, conc, cpc, ei, v, rs, js, jerr, pend, pv, ppanic, ran, stopped, serr, ret>>
 
 \* after a fail-fast exit nobody runs the jobs that were never dispatched; a job that had been
